@@ -14,6 +14,14 @@ CHECKS = {
          "Every catalog definition and every single buffer length around MIN_SIZE: library constants, compiler layout (size_of/align_of(_val), field addresses of mapped values) and the reference C rule must agree; a mapped value never claims more than its slice."),
  "C06": ("exploration", "decode", "6.C06", "exhaustive enumeration of every cut position and a bounded suffix set for every enumerated message of every catalog shape",
          "For every enumerated message: every proper prefix is InsufficientSize (or the same content when only padding is missing), every extension (all short suffixes over {00,01,FF}, every other message image) reads the same content and size()."),
+ "C03": ("exploration", "emplace", "6.C03", "exhaustive product sweep: catalog shape x enumerated value x emplacer kind x entry point x buffer length x address offset x garbage fill, differential against the reference encoder/decoder",
+         "Every enumerated value of every catalog shape through every emplacer kind (nested emplacers, literals/flat_vec!, grow-from-empty) into every sufficiently large buffer with three garbage fills: reads back the value, re-validates, non-padding bytes equal the reference encoding, image independent of the fill."),
+ "C15": ("exploration", "emplace", "6.C15", "exhaustive product sweep over every single buffer length from 0 to beyond the need and every address offset, outcome compared with the reference fit predicate",
+         "new_in_place / FlatWrap::new_in_place / default_in_place on every buffer length 0..need+2*ALIGN+2 at every offset modulo ALIGN: never panics, BadAlign when misaligned, InsufficientSize when the reference says the content does not fit, success (with the C03 oracle) when it does; canaries intact on failures too."),
+ "C17": ("exploration", "emplace", "6.C17", "exhaustive sweep over the declared-portable catalog x values x address offsets 0..7, image compared byte-for-byte with a layout-free concatenation encoder",
+         "Every declared-portable shape: ALIGN 1, no padding byte in the reference mask, image identical to the layout-free serialisation, same content when mapped at every address offset. One host only: platform independence is established as 'bytes are a platform-independent function of content'."),
+ "C20": ("exploration", "emplace", "6.C20", "exhaustive sweep over default-capable shapes x every buffer length x offsets x four prior fills, compared with the reference default value and Default::default()",
+         "default_in_place on every length and four prior contents: reads the reference default (zero leaves, empty containers, #[default] variant), validates, size() is the extent of that state, image independent of prior contents under the padding mask, equal to Default::default() for sized types."),
  "C19": ("exploration", "decode", "6.C19", "exhaustive single-corruption enumeration of every constrained byte of every enumerated image, position judged against the reference's offending range",
          "Every constrained byte (Bool, tag, UTF-8) at every nesting position the catalog offers, each corrupted every listed way: the error must be a content error positioned inside the offending range."),
 }
@@ -38,6 +46,7 @@ m = {
  "hooks": {"guard": "flatty_verif", "enable": "no source hooks are needed: every oracle observes public API results, harness-owned memory or the harness's own pipe", "baseline_off_cmd": "cd /repo && cargo test --workspace --no-fail-fast --offline", "source_commits": [], "add_only": True},
  "engines": [
   {"name": "decode", "path": "crates/engines/src/bin/decode.rs", "serves_properties": ["C01", "C02", "C06", "C19"], "kind_free_text": "E1 exhaustive product sweep over byte strings on the real validators vs reference decoder"},
+  {"name": "emplace", "path": "crates/engines/src/bin/emplace.rs", "serves_properties": ["C03", "C15", "C17", "C20"], "kind_free_text": "E1 exhaustive product sweep over emplacements"},
   {"name": "layout", "path": "crates/engines/src/bin/layout.rs", "serves_properties": ["C04"], "kind_free_text": "E1 exhaustive product sweep over shapes x lengths x values"},
  ],
  "checks": checks,
